@@ -636,6 +636,8 @@ func genSkeleton() string {
 	b.WriteString("def mutexHandlers : List (String × (List String × Sk)) := [\n  ")
 	b.WriteString(strings.Join(mnames, ",\n  "))
 	b.WriteString("\n]\n\n")
+	b.WriteString("/-- the methods that are ASSUMED to be called with `mu` held (they touch guarded fields and never lock): (name, is exported,\n    number of calls from outside the struct's own methods) -/\n")
+	b.WriteString("def mutexAssumed : List (String × Bool × Nat) := [" + strings.Join(assumedOut, ", ") + "]\n\n")
 	b.WriteString("/-- the structs with a mutex and the fields counted as guarded by it -/\n")
 	b.WriteString("def mutexGuardedFields : List (String × List String) := [" + strings.Join(mfields, ", ") + "]\n\n")
 	b.WriteString("/-- every function with (its name, (inode variables live at entry, its skeleton)) -/\n")
@@ -875,7 +877,10 @@ func genSlotUses() []string {
 //               struct that touches guarded fields without locking (it assumes the mutex)
 // A method that locks starts with the mutex released; a method that assumes the mutex starts with
 // it held.  Guarded fields: maps, *list.List, and every field assigned in some method.
+var assumedOut []string
+
 func genMutexSkeleton(b *strings.Builder, total *skel) (names []string, fieldsOut []string) {
+	assumedOut = nil
 	dirs, err := filepath.Glob(filepath.Join(repo, "*"))
 	if err != nil {
 		fail("mutex skeleton: %v", err)
@@ -1039,6 +1044,33 @@ func genMutexSkeleton(b *strings.Builder, total *skel) (names []string, fieldsOu
 			held := "[]"
 			if assuming[t][fd.Name.Name] {
 				held = "[" + q("mu") + "]"
+				// the assumption "the caller holds mu" is the caller's to keep: such a method must not be reachable from outside
+				// the struct's own methods (an exported one is; so is one that a plain function of the package calls)
+				outside := 0
+				for _, f2 := range files {
+					for _, d2 := range f2.Decls {
+						fd2, ok := d2.(*ast.FuncDecl)
+						if !ok || fd2.Body == nil {
+							continue
+						}
+						if t2, _ := recvOf(fd2); fd2.Recv != nil && t2 == t {
+							continue
+						}
+						ast.Inspect(fd2.Body, func(n ast.Node) bool {
+							if ce, ok := n.(*ast.CallExpr); ok {
+								if se, ok := ce.Fun.(*ast.SelectorExpr); ok && se.Sel.Name == fd.Name.Name {
+									outside++
+								}
+							}
+							return true
+						})
+					}
+				}
+				exported := "false"
+				if ast.IsExported(fd.Name.Name) {
+					exported = "true"
+				}
+				assumedOut = append(assumedOut, fmt.Sprintf("(%s, %s, %d)", q("mu_"+base+"_"+t+"_"+fd.Name.Name), exported, outside))
 			} else {
 				// released at entry: acquired and released once before the body
 				body = ".seq [.acq " + q("mu") + ", .fin, " + body + "]"
